@@ -8,6 +8,8 @@ from .cfacts import backoff_facts, clients, retried_facts, retry_loop_facts, ret
 
 
 def run(ck: Check, prog: Program) -> None:
+    from .cfacts import client_program
+    prog = client_program(prog)
     crs = clients(prog)
     loops = retry_loops(prog)
     ck.explain('Cycle/dominance and typestate rules over the CFG (with exception edges) of retry and retry_async: every cycle '
